@@ -194,6 +194,32 @@ def run(ck):
                 ck.ob("BOUNDS", p, "clamped-range-ordered#%d" % k, ok, why, f.loc(bi))
     ck.floor("BOUNDS", "ranges clamped with min(.., len)", nord, 3)
 
+    # slices of host-side data (parameters, policies, return values, entries, iterator keys): the start of the range is a
+    # constant, is clamped to the length of the data, or is compared with a length on the way to the slice; an unclamped
+    # contract-supplied offset makes `data[offset..]` panic
+    nst = 0
+    for p in sorted(c.paths()):
+        if "::utils::" in p or "::trie::" in p or not re.search(r"::v[01]::", p):
+            continue
+        for b in c.get_all(p):
+            f = Fn(b)
+            memv = [l for l, nm in f.names().items() if nm == "memory" and l <= f.argc]
+            for k, (bi, t) in enumerate(f.calls(r"ops::Index::index$|ops::IndexMut::index_mut$")):
+                if memv and ("arg", memv[0]) in f.origins(t["args"][0]):
+                    continue
+                rb = rules.range_bounds(f, t["args"][1])
+                if rb is None or rb[1] is None:
+                    continue
+                so = f.origins(rb[1], deep=True)
+                const_start = bool(so) and all(a[0] in ("lit", "cast") for a in so)
+                clamp = has_call_origin(so, r"cmp::min$|Ord::min$") and has_call_origin(so, r"::len$")
+                guarded = any((kk in ("cmp:Le", "cmp:Lt") and v is True or kk in ("cmp:Gt", "cmp:Ge") and v is False) and "len" in nn for (kk, nn, v) in conditions_at(f, bi))
+                nst += 1
+                ck.ob("BOUNDS", p, "range-start-bounded#%d" % k, const_start or clamp or guarded,
+                      "the start of the range is %s" % ("constant" if const_start else "clamped to the length of the data" if clamp else "compared with a length before the slice") if const_start or clamp or guarded else
+                      "the start of the range is neither clamped to the length of the sliced data nor compared with it: an offset beyond the end panics", f.loc(bi))
+    ck.floor("BOUNDS", "range slices of host-side data", nst, 13)
+
     # v0 action tree: both operands of a combinator must refer to existing actions
     for nm in ("combine_and", "combine_or"):
         for p in [x for x in c.paths() if re.search(r"::v0::.*Outcome::" + nm + "$", x)]:
